@@ -11,7 +11,16 @@
 #include "common.h"
 #include "llbuild/BuildSystem/BuildSystem.h"
 
+#include <algorithm>
 #include <set>
+
+// distinct 64-bit hashes, counted by sort + unique at the end (8 bytes per insertion instead of a tree node)
+struct HashBag {
+  std::vector<uint64_t> v;
+  void insert(uint64_t h) { v.push_back(h); if (v.size() >= (1u << 24)) compact(); }
+  void compact() { std::sort(v.begin(), v.end()); v.erase(std::unique(v.begin(), v.end()), v.end()); }
+  size_t size() { compact(); return v.size(); }
+};
 
 using llbuild::buildsystem::pathIsPrefixedByPath;
 using vf::jstr;
@@ -77,7 +86,7 @@ static int expectation(const std::string& path, const std::string& root) {
 static unsigned long nViol = 0;
 static std::map<std::string, unsigned long> violCount;
 static std::map<std::string, std::pair<std::string, std::string>> smallest;  // key -> smallest witness
-static std::set<uint64_t> distinctPairs;  // judged pairs, by hash
+static HashBag distinctPairs;  // judged pairs, by hash
 static void judge(const std::string& path, const std::string& root, unsigned long& must, unsigned long& mustNot, unsigned long& dontCare,
                   std::set<uint64_t>& classes) {
   int e = expectation(path, root);
